@@ -20,5 +20,4 @@ def explore(res, scale=1, seed=None):
 
 
 def replay(res, path):
-    print(open(path).read())
-    return 0
+    return colfam.replay_file(res, path)
